@@ -23,6 +23,10 @@ class Unknown:
         return "Unknown(%s)" % self.why
 
 
+class Undefined(Unknown):
+    """a value the language leaves undefined for a valid input (over-wide shift, ...)"""
+
+
 class Bits:
     __slots__ = ("b",)
 
@@ -162,8 +166,70 @@ def join(a, b):
     return Bits([x if x == y else _sym(x, y) if (isinstance(x, tuple) or isinstance(y, tuple)) else (frozenset(), False) for x, y in zip(a.b, b.b)])
 
 
-class Return(Exception):
-    pass
+def norm(v):
+    """a Bits whose entries are all constants is a concrete integer"""
+    if isinstance(v, Bits) and all(e == 0 or e == 1 for e in v.b):
+        x = sum((1 << k) for k, e in enumerate(v.b) if e == 1)
+        return x - (1 << W) if x >> (W - 1) else x
+    return v
+
+
+def guard_of(v):
+    """the single input bit that decides whether v != 0, or None"""
+    if isinstance(v, Bits):
+        nz = [e for e in v.b if e != 0]
+        if len(nz) == 1 and isinstance(nz[0], tuple) and nz[0][1]:
+            return nz[0]
+    return None
+
+
+def mux(g, a, b):
+    """value that equals a when the input bit g is 1 and b when it is 0"""
+    if isinstance(a, Unknown) or isinstance(b, Unknown):
+        return a if isinstance(a, Unknown) else b
+    if isinstance(a, list) and isinstance(b, list):
+        return [mux(g, x, y) for x, y in zip(a, b)]
+    if not isinstance(a, Bits) and not isinstance(b, Bits) and a == b:
+        return a
+    a, b = as_bits(a), as_bits(b)
+    out = []
+    for x, y in zip(a.b, b.b):
+        if x == y:
+            out.append(x)
+        elif x == 1 and y == 0:
+            out.append(g)
+        elif x == g and y == 0:
+            out.append(g)          # g ? g : 0
+        elif x == 1 and y == g:
+            out.append(g)          # g ? 1 : g
+        else:
+            out.append(_sym(x, y, g))
+    return Bits(out)
+
+
+class NonTerminating(Exception):
+    """the loop condition is constantly true and the state no longer changes"""
+
+    def __init__(self, node, turns):
+        Exception.__init__(self, "loop cycles")
+        self.node = node
+        self.turns = turns
+
+
+def srange(v, signed=True):
+    """[lo, hi] of the values a Bits / int can take"""
+    if not isinstance(v, Bits):
+        return (int(v), int(v))
+    lo = sum((1 << k) for k, e in enumerate(v.b[:W - 1]) if e == 1)
+    hi = sum((1 << k) for k, e in enumerate(v.b[:W - 1]) if e != 0)
+    top = v.b[W - 1]
+    if not signed:
+        return (lo + ((1 << (W - 1)) if top == 1 else 0), hi + ((1 << (W - 1)) if top != 0 else 0))
+    if top == 0:
+        return (lo, hi)
+    if top == 1:
+        return (lo - (1 << (W - 1)), hi - (1 << (W - 1)))
+    return (lo - (1 << (W - 1)), hi)
 
 
 class Interp:
@@ -177,6 +243,8 @@ class Interp:
         self.unroll = unroll
         self.cls = cls
         self.unrolled = []         # loops whose condition was data-dependent
+        self._slices = {}
+        self.loop_status = {}      # id(loop) -> (node, "exits" | "capped" | "cycles", turns)
         self.depth = 0
 
     # ---- entry
@@ -237,6 +305,8 @@ class Interp:
             c = s["c"]
             cond = self.eval(c[-3] if len(c) >= 3 else c[0], env)
             then, els = (c[-2], c[-1]) if len(c) >= 3 else (c[1], None)
+            cond = norm(cond)
+            g = guard_of(cond)
             if isinstance(cond, Bits):
                 cond = Unknown("data")
             if not isinstance(cond, Unknown):
@@ -247,7 +317,7 @@ class Interp:
             if l1 and l2:
                 for d in set(e1) | set(e2):
                     if d in e1 and d in e2:
-                        env[d] = join(e1[d], e2[d])
+                        env[d] = mux(g, e1[d], e2[d]) if g is not None else join(e1[d], e2[d])
             elif l1 or l2:
                 env.clear()
                 env.update(e1 if l1 else e2)
@@ -260,14 +330,30 @@ class Interp:
                 cond, body = s["c"][-2], s["c"][-1]
                 inc = None
             turns = 0
+            data_dependent = False
+            last = None
             while True:
-                c = self.eval(cond, env) if cond is not None else True
+                c = norm(self.eval(cond, env)) if cond is not None else True
                 if isinstance(c, (Unknown, Bits)):
+                    data_dependent = True
                     if s not in self.unrolled:
                         self.unrolled.append(s)
-                    if turns >= self.unroll:
-                        break
                 elif not c:
+                    if data_dependent:
+                        self.loop_status[id(s)] = (s, "exits", turns)
+                    break
+                elif turns > 2 * self.unroll:
+                    sl = self.slice_of(s, cond, body, inc)
+                    snap = repr(sorted((d, snapshot(v)) for d, v in env.items() if d in sl))
+                    if snap == last:
+                        self.loop_status[id(s)] = (s, "cycles", turns)
+                        if getattr(self, "stop_on_cycle", False):
+                            break
+                        raise NonTerminating(s, turns)
+                    last = snap
+                # a loop whose exit depends on the data is followed while it may continue, `4*unroll` turns at most
+                if data_dependent and turns >= 4 * self.unroll:
+                    self.loop_status[id(s)] = (s, "capped", turns)
                     break
                 turns += 1
                 if turns > 4096:
@@ -284,6 +370,63 @@ class Interp:
         # expression statement
         self.eval(s, env)
         return True
+
+    def slice_of(self, loop, cond, body, inc):
+        """variables the loop condition depends on through the assignments of the loop (syntactic backward slice)"""
+        key = id(loop)
+        if key in self._slices:
+            return self._slices[key]
+        from tbf import walk
+
+        def reads(n):
+            return set(x["did"] for x in walk(n) if isinstance(x, dict) and x.get("k") == "DeclRefExpr" and "did" in x) if n is not None else set()
+        defs = []   # (target did, dids read)
+
+        def rec(n, ctl):
+            if n is None or not isinstance(n, dict):
+                return
+            k = n.get("k")
+            if k == "IfStmt":
+                c = n["c"]
+                cnd = c[-3] if len(c) >= 3 else c[0]
+                ctl2 = ctl | reads(cnd)
+                for x in c:
+                    if x is not cnd:
+                        rec(x, ctl2)
+                return
+            if k in ("ForStmt", "WhileStmt", "DoStmt"):
+                cs = [x for x in n["c"] if x is not None]
+                ctl2 = set(ctl)
+                for x in cs[:-1] if k != "DoStmt" else cs[1:]:
+                    ctl2 |= reads(x)
+                for x in cs:
+                    rec(x, ctl2)
+                return
+            if k in ("BinaryOperator", "CompoundAssignOperator") and n.get("op", "").endswith("=") and n.get("op") not in ("==", "!=", "<=", ">="):
+                l, r = kids(n)
+                tg = [x for x in walk(l) if x.get("k") == "DeclRefExpr"]
+                if tg:
+                    defs.append((tg[0]["did"], reads(r) | reads(l) | ctl))
+            if k == "UnaryOperator" and n.get("op") in ("++", "--"):
+                tg = [x for x in walk(n) if x.get("k") == "DeclRefExpr"]
+                if tg:
+                    defs.append((tg[0]["did"], reads(n) | ctl))
+            if k == "VarDecl" and kids(n):
+                defs.append((n["did"], reads(kids(n)[0]) | ctl))
+            for x in n.get("c", []) or []:
+                rec(x, ctl)
+        rec(body, set())
+        rec(inc, set())
+        sl = reads(cond)
+        changed = True
+        while changed:
+            changed = False
+            for t, rd in defs:
+                if t in sl and not rd <= sl:
+                    sl |= rd
+                    changed = True
+        self._slices[key] = sl
+        return sl
 
     def copy(self, env):
         return {d: (list(v) if isinstance(v, list) else v) for d, v in env.items()}
@@ -424,25 +567,63 @@ class Interp:
 
     def binop(self, n, op, a, b):
         if isinstance(a, Unknown) or isinstance(b, Unknown):
-            return Unknown("uses an unknown value")
+            other = b if isinstance(a, Unknown) else a
+            if not isinstance(a, Undefined) and not isinstance(b, Undefined) and isinstance(other, bool) and (n.get("t") or "") in ("bool", "int"):
+                if op in ("|", "||") and other is True:
+                    return True
+                if op in ("&", "&&") and other is False:
+                    return False
+            return a if isinstance(a, Undefined) else b if isinstance(b, Undefined) else Unknown("uses an unknown value")
         if isinstance(a, list) or isinstance(b, list):
             self.bad(n, "operator on a whole array")
+        a, b = norm(a), norm(b)
         conc = not isinstance(a, Bits) and not isinstance(b, Bits)
+        is_int = (n.get("t") or "") in ("int", "const int")
         if op in ("<", ">", "<=", ">=", "==", "!="):
             if conc:
                 return {"<": a < b, ">": a > b, "<=": a <= b, ">=": a >= b, "==": a == b, "!=": a != b}[op]
+            if op == "!=" and (a == 0 or b == 0) and not (isinstance(a, bool) or isinstance(b, bool)):
+                g = guard_of(b if a == 0 else a)
+                if g is not None:
+                    return Bits([g] + [0] * (W - 1))
+            ts = " ".join((x.get("t") or "") for x in kids(n))
+            signed = not ("unsigned" in ts or "size_t" in ts)
+            (alo, ahi), (blo, bhi) = srange(a, signed), srange(b, signed)
+            if not signed and not isinstance(a, Bits):
+                alo = ahi = a & M
+            if not signed and not isinstance(b, Bits):
+                blo = bhi = b & M
+            if op in ("<", "<=", ">", ">="):
+                if op in (">", ">="):
+                    (alo, ahi), (blo, bhi), op = (blo, bhi), (alo, ahi), {">": "<", ">=": "<="}[op]
+                if (ahi < blo) or (op == "<=" and ahi <= blo):
+                    return True
+                if (alo > bhi) or (op == "<" and alo >= bhi):
+                    return False
+            elif ahi < blo or bhi < alo:
+                return op == "!="
             return Unknown("data-dependent comparison")
         if op in ("||", "&&"):
             if conc:
                 return (a or b) if op == "||" else (a and b)
+            for x in (a, b):
+                if not isinstance(x, Bits) and bool(x) == (op == "||"):
+                    return op == "||"
             return Unknown("data")
         if op in ("<<", ">>"):
             if isinstance(b, Bits):
                 return v_top(a, b)
-            if b < 0 or b >= 64:
-                return Unknown("shift by %d is wider than the type" % b)
+            if b < 0 or b >= (32 if is_int else 64):
+                return Undefined("%s: shift by %d is wider than the %d-bit type of `%s`" % (self.facts.loc(n), b, 32 if is_int else 64, self.facts.ntext(n)[:60]))
+            if conc and is_int:
+                v = (a << b) & 0xFFFFFFFF if op == "<<" else (a >> b)
+                return v - (1 << 32) if (op == "<<" and v >> 31) else v
             if conc:
-                return (a << b) & M if op == "<<" else ((a & M) >> b if a >= 0 else a >> b)
+                uns = "unsigned" in (n.get("t") or "") or "size_t" in (n.get("t") or "")
+                if op == "<<":
+                    v = (a << b) & M
+                    return v if uns or not (v >> (W - 1)) else v - (1 << W)
+                return (a & M) >> b if (uns or a >= 0) else a >> b
             signed = "unsigned" not in (n.get("t") or "")
             return v_shl(a, b) if op == "<<" else v_shr(a, b, signed)
         if conc:
@@ -472,6 +653,14 @@ class Interp:
                 return v_shr(a, s) if op == "/" else Bits(a.b[:s] + [0] * (W - s))
             return v_top(a, b)
         self.bad(n, "binary operator '%s'" % op)
+
+
+def snapshot(v):
+    if isinstance(v, list):
+        return tuple(snapshot(x) for x in v)
+    if isinstance(v, Bits):
+        return tuple(v.b)
+    return repr(v)
 
 
 def describe(e):
